@@ -261,6 +261,24 @@ def programs(tier):
         ph(h, "s", 2, [1, 4]), (3, 4))
     P["lambda;zeros_like"] = lambda h: pt.zeros_like(ph(h, "a", 2, [3, 4]))
 
+    # non-finite scalar constants (each must come out as itself: +inf, -inf
+    # and nan are three different values)
+    for nm, c in (("inf", np.inf), ("-inf", -np.inf), ("nan", np.nan)):
+        P[f"const;{nm};full"] = lambda h, c=c: pt.full((3, 4), c)
+        P[f"const;{nm};sub"] = lambda h, c=c: ph(h, "a", 1) - c
+        P[f"const;{nm};where"] = lambda h, c=c: pt.where(
+            ph(h, "m", 1, [h.nonneg("n0")]), ph(h, "a", 1, [h.nonneg("n0")]), c)
+        P[f"const;{nm};less"] = lambda h, c=c: pt.less(ph(h, "a", 1), c)
+        P[f"const;{nm};maximum"] = lambda h, c=c: pt.maximum(ph(h, "a", 1), c)
+
+    # reductions that are *not* in the producers' normal form (the target
+    # emits np.sum & co. for what the raiser recognises as a plain reduction)
+    from contracts.c19_raising import reduce_lambda
+    for k in ("lower-nonzero", "upper-partial", "transposed-out",
+              "inner-not-subscript", "permuted-out-square",
+              "permuted-out-square-concrete", "normal-rank3", "normal"):
+        P[f"reduce-lambda;{k}"] = lambda h, k=k: reduce_lambda(h, k)
+
     def dict_out(h):
         a = ph(h, "a", 1)
         return pt.make_dict_of_named_arrays({"y": a + 1, "x": -a})
